@@ -14,7 +14,8 @@ import json
 import sys
 
 from ..core import Check, REPO, ROOT, vm_crosscheck
-from .. import async_util as U
+
+U = None       # harness.async_util, imported in main(): it imports casbin, which may be broken
 
 PROP = "C18"
 CONSTRUCTOR_EXCEPTIONS = ["init_with_file", "init_with_model_and_adapter"]
@@ -246,6 +247,14 @@ def main():
                    "harness/async_util.py recording adapters/watchers are equivalent pairs (same storage code; the async one "
                    "wraps it in coroutines exactly where the async interfaces of the tree under test declare `async def`)"]
     chk.build(translators=["asyncdiff"])
+    global U
+    try:
+        from .. import async_util
+        U = async_util
+    except Exception as e:                      # noqa  (casbin itself does not import)
+        chk.disagree(dict(kind="import"), f"{type(e).__name__}: {e}", "casbin imports", where="import casbin failed")
+        chk.extra["programs"] = 0
+        chk.finish()
     if chk.replay_file:
         return replay(chk)
     table, suspects = structural(chk)
